@@ -10,3 +10,6 @@ theories/SyncFut/Inv.vos theories/SyncFut/Inv.vok theories/SyncFut/Inv.required_
 theories/SyncFut/QueueStep.vo theories/SyncFut/QueueStep.glob theories/SyncFut/QueueStep.v.beautified theories/SyncFut/QueueStep.required_vo: theories/SyncFut/QueueStep.v theories/SyncFut/Model.vo theories/SyncFut/Spec.vo theories/SyncFut/Inv.vo
 theories/SyncFut/QueueStep.vio: theories/SyncFut/QueueStep.v theories/SyncFut/Model.vio theories/SyncFut/Spec.vio theories/SyncFut/Inv.vio
 theories/SyncFut/QueueStep.vos theories/SyncFut/QueueStep.vok theories/SyncFut/QueueStep.required_vos: theories/SyncFut/QueueStep.v theories/SyncFut/Model.vos theories/SyncFut/Spec.vos theories/SyncFut/Inv.vos
+theories/SyncFut/TaskStep.vo theories/SyncFut/TaskStep.glob theories/SyncFut/TaskStep.v.beautified theories/SyncFut/TaskStep.required_vo: theories/SyncFut/TaskStep.v theories/SyncFut/Model.vo theories/SyncFut/Spec.vo theories/SyncFut/Inv.vo theories/SyncFut/QueueStep.vo
+theories/SyncFut/TaskStep.vio: theories/SyncFut/TaskStep.v theories/SyncFut/Model.vio theories/SyncFut/Spec.vio theories/SyncFut/Inv.vio theories/SyncFut/QueueStep.vio
+theories/SyncFut/TaskStep.vos theories/SyncFut/TaskStep.vok theories/SyncFut/TaskStep.required_vos: theories/SyncFut/TaskStep.v theories/SyncFut/Model.vos theories/SyncFut/Spec.vos theories/SyncFut/Inv.vos theories/SyncFut/QueueStep.vos
